@@ -324,3 +324,12 @@ package compiler
 //@   ensures result == s.errorsLogged
 
 //@ func parser.FieldModifier.String(f)
+
+// ---- generator options (C11: every supported option set is accepted) -----------------------------------
+// The only thing CleanGenParam refuses is an option the language does not have: whatever the shape of the
+// option string, an error is returned only right after generator.ValidateOption said no, and it is said
+// about the name in front of the first '='.
+//@ func compiler.CleanGenParam(gen)
+//@   ensures result2 != nil ==> ncalls("generator.ValidateOption") >= 1
+//@   ensures result2 != nil ==> !lastcallret("generator.ValidateOption", 0)
+//@   modifies *
